@@ -124,6 +124,38 @@ def build_pixman(flavour="plain"):
             "hash": hh, "flavour": flavour}
 
 
+def build_repo_tests(names, flavour="plain"):
+    """Build some of the repository's own test programs against the hook-enabled library (for tracing them with
+       PIXMAN_VERIF_TRACE).  Returns {name: executable}."""
+    hh = repo_hash(flavour)
+    h2 = hashlib.sha1()
+    for f in sorted(glob.glob(os.path.join(REPO, "test", "*.[ch]")) + [os.path.join(REPO, "test", "meson.build")]):
+        h2.update(open(f, "rb").read())
+    base = os.path.join(BUILD, "pixman")
+    os.makedirs(base, exist_ok=True)
+    d = os.path.join(base, "tests-%s-%s-%s" % (flavour, hh, h2.hexdigest()[:8]))
+    lock = open(os.path.join(base, ".lock-tests-" + flavour), "w")
+    fcntl.flock(lock, fcntl.LOCK_EX)
+    try:
+        if not os.path.exists(os.path.join(d, "build.ninja")):
+            shutil.rmtree(d, ignore_errors=True)
+            for o in glob.glob(os.path.join(base, "tests-%s-*" % flavour)):
+                shutil.rmtree(o, ignore_errors=True)
+            cargs, mopts, _ = FLAVOURS[flavour]
+            p = sh(["meson", "setup", d, REPO, "-Dtests=enabled", "-Dgtk=disabled", "-Dlibpng=disabled",
+                    "-Dopenmp=disabled", "-Ddefault_library=static", "-Dwerror=false",
+                    "-Dc_args=" + " ".join(cargs + ["-Wno-error"])] + mopts, check=False)
+            if p.returncode != 0:
+                raise Infra("meson setup (tests) failed:\n" + p.stdout[-3000:])
+        p = sh(["ninja", "-C", d] + ["test/" + n for n in names], check=False)
+        if p.returncode != 0:
+            raise Infra("build of the repository's tests failed:\n" + p.stdout[-3000:])
+    finally:
+        fcntl.flock(lock, fcntl.LOCK_UN)
+        lock.close()
+    return {n: os.path.join(d, "test", n) for n in names}
+
+
 def build_driver(name, flavour="plain", extra_src=(), cflags=(), ldflags=()):
     """Compile harness/<name>.c (+ common) against the library of the given flavour."""
     px = build_pixman(flavour)
